@@ -16,17 +16,17 @@ CHECKS = {
         tech="deterministic simulation: seeded lock-step scheduler with stall/reindex/restart faults + per-tick invariants and bounded-liveness check"),
     "C03": dict(
         cat="exploration", ref="5/C03",
-        text="Completed mask-confined episodes in every reward mode (mTSP minmax/sum, MDCPDP minmax/minsum/lateness x open/close x L1/L2, MTVRP open/closed, PCTSP/SPCTSP, SMTWTP, FJSP/JSSP/FFSP, FLP, MCP) in batches with unequal finishing ticks and snapshot/reindex/alternate perturbations; env.get_reward on the padded action matrix must equal the float64 objective recomputed from the original instance and the executed actions alone.",
+        text="Completed mask-confined episodes in every reward mode (mTSP minmax/sum, MDCPDP minmax/minsum/lateness x open/close x L1/L2, MTVRP open/closed, PCTSP/SPCTSP, SMTWTP, FJSP/JSSP/FFSP, FLP, MCP) in batches with unequal finishing ticks and snapshot/reindex/alternate perturbations; env.get_reward on the padded action matrix must equal the float64 objective recomputed from the original instance and the executed actions alone; it is asked twice on the finished state, once more on a freshly reset state of the same instances (environments whose objective is a function of instance and actions), and after 'overrun' ticks in which the whole batch is stepped on after its last row finished.",
         note="Trusted: reference objectives (rlsim/ref/*.py); tolerance 1e-5*max(1,|ref|)*sqrt(steps). DPP/MDPP decap-simulator rewards are not modelled (not listed by the property).",
         tech="deterministic simulation: seeded scheduler + independent objective oracle over recorded histories"),
     "C05": dict(
         cat="exploration", ref="5/C05",
         text="Model-driven schedules: for tiny instances (generator and exact-arithmetic boundary instances) the reference enumerates its own complete feasible solution set (exhaustive when <= 400/2000 sequences, seeded sample otherwise, brute-force optimum always); the real environment is driven along each solution in batches: every action must be admitted, done exactly at completion, optimum reward equal (a stranger instance sits at batch row 0 in half of the runs; hand-format instances with service durations; exact fills of k/Q demands are decided in integers for CVRP, CVRPTW and MTVRP); at every visited state each must-action of the reference that is not a documented pruning must be offered.",
-        note="Exhaustive over the reference's solution set per instance, sampled over instances; never enumerates the implementation's state space. Length/time-window equalities are observations only; capacity and prize equalities are obligations on boundary instances, capacity equality also on generator instances (integer decision). FFSP only via C07.",
+        note="Exhaustive over the reference's solution set per instance, sampled over instances; never enumerates the implementation's state space. Length/time-window equalities are observations only; capacity and prize equalities are obligations on boundary instances, capacity equality also on generator instances (integer decision). FFSP in the weak form only: along seeded episodes every ready job and the documented wait are offered at every decision slot.",
         tech="deterministic simulation: reference-model-generated schedules (model-trace) replayed on the real environment"),
     "C06": dict(
         cat="fault_enumeration", ref="5/C06",
-        text="Fault enumeration on recorded solutions: for a base solution (mask-driven episode or reference-built feasible solution, plus padded / no-final-depot shapes) every position x fault-kind single-fault corruption of the action list (drop, duplicate, swap, move, merge routes) and instance-side faults (raise demand, shrink window / length limit / skill, lower prize) is enumerated (capped by seeded sampling), each verdict asked once alone and once in a batch next to a companion instance / solution; the checker must accept what the independent problem definition accepts and raise for what it rejects beyond the float band. Covers tsp, atsp, cvrp, cvrptw (scaled/unscaled), sdvrp, svrp, op, pctsp, spctsp, pdp (both start modes), mtvrp presets, tsp_kopt and pdp_ruin_repair (successor-array corruptions).",
+        text="Fault enumeration on recorded solutions: for a base solution (mask-driven episode or reference-built feasible solution, plus padded / no-final-depot shapes) every position x fault-kind single-fault corruption of the action list (drop, duplicate, swap, move, merge routes; for depot-less tours also delete a node / insert a revisit) and instance-side faults (raise demand, shrink window / length limit / skill, lower prize) is enumerated (capped by seeded sampling), each verdict asked once alone and once in a batch next to a companion instance / solution; the checker must accept what the independent problem definition accepts and raise for what it rejects beyond the float band. Covers tsp, atsp, cvrp, cvrptw (scaled/unscaled), sdvrp, svrp, op, pctsp, spctsp, pdp (both start modes), mtvrp presets, tsp_kopt and pdp_ruin_repair (successor-array corruptions).",
         note="Ground truth = rlsim/ref/routing.py violations() and successor-array validity; verdicts inside the band are skipped; any exception counts as rejection. Exhaustive per base solution up to the cap, sampled over instances and base solutions.",
         tech="deterministic simulation: seeded base histories + exhaustive single-fault injection with independent verdict oracle"),
     "C07": dict(
@@ -41,12 +41,12 @@ CHECKS = {
         tech="deterministic simulation: seeded selection-order scheduler + reference bookkeeping model checked per tick"),
     "C09": dict(
         cat="exploration", ref="5/C09",
-        text="Histories of 20-60 moves on TSPkoptEnv (k=2,3,4) and PDPRuinRepairEnv from every mask-admitted move (scheduled), the environments' own random-move sampler, DACT/NeuOpt/N2S policies with random weights and step_to_solution, batch sizes incl. 1, snapshot right after improving moves (aliasing case), mirror batches and another episode reset and moved on the same environment object mid-episode; after every move: single cycle, PDP precedence, cost_current/cost_bsf equal recomputed lengths and the ledger minimum, cost_bsf monotone, reward = decrease, visited_time consistent, built-in checker accepts rec_best.",
+        text="Histories of 20-60 moves on TSPkoptEnv (k=2..6) and PDPRuinRepairEnv (4-10 nodes; one run in twelve 26-30 nodes with several customers at one address) from every mask-admitted move (scheduled), the environments' own random-move sampler, DACT/NeuOpt/N2S policies with random weights and step_to_solution, batch sizes incl. 1, snapshot right after improving moves (aliasing case), mirror batches and another episode reset and moved on the same environment object mid-episode; after every move: single cycle, PDP precedence, cost_current/cost_bsf equal recomputed lengths and the ledger minimum, cost_bsf monotone, reward = decrease, visited_time consistent, built-in checker accepts rec_best.",
         note="Trusted: rlsim/ref/improvement.py (list-based tours, ledger). k>=3 moves only from the sampler, NeuOpt and step_to_solution (the env has no move mask for k>2).",
         tech="deterministic simulation: seeded move scheduler + ledger/reference tour model checked after every move"),
     "C10": dict(
         cat="exploration", ref="5/C10",
-        text="Real decoding loops (scripted decoder in five logit modes incl. ties/huge/flat, tiny real AM) over 19 real environments with a swarm over temperature, tanh clipping, top-k, top-p and decode types; a tap on process_logits checks every step against a float64 reference (normalised, masked => -inf, argmax kept, <= k kept up to ties, nucleus mass >= p, shift invariance by re-running the recorded step, greedy maximiser, sampled action has positive probability); sampler faults (1-3 injected zero-probability draws) must be absorbed by the retry loop within one further clean draw.",
+        text="Real decoding loops (scripted decoder in five logit modes incl. ties/huge/flat, tiny real AM) over 19 real environments with a swarm over temperature, tanh clipping, top-k, top-p and decode types; a tap on process_logits checks every step against a float64 reference (normalised, masked => -inf, argmax kept, <= k kept up to ties, nucleus mass >= p, shift invariance by re-running the recorded step, greedy maximiser, sampled action has positive probability); the knobs the caller configured must be the ones process_logits receives at every step of the rollout; sampler faults (1-3 injected zero-probability draws) must be absorbed by the retry loop within one further clean draw; one run in eighty uses a 130-200 action space with a flat distribution (nucleus mass over all actions).",
         note="The 'for all real logits' algebra is a pure-function claim; the simulator reaches it only through the values flowing through simulated episodes and under sampler faults (thin for that sub-claim, stated in DESIGN 6). With top-k and top-p both active the nucleus clause is read against the top-k-restricted distribution.",
         tech="deterministic simulation: seeded decoding episodes with process_logits tap + sampler fault injection (bounded-liveness of the retry loop)"),
     "C11": dict(
@@ -56,12 +56,12 @@ CHECKS = {
         tech="deterministic simulation: recorded decoding histories replayed in evaluate mode + float64 reference distribution from a logits tap"),
     "C12": dict(
         cat="exploration", ref="5/C12",
-        text="(a) batchify/unbatchify/unbatchify_and_gather on tensors and nested TensorDicts with factor lists (k), (a,s), (r,a,s): row r belongs to instance r mod B, expand-then-inverse is the identity; (b) multi-start / multi-sample rollouts through the real policy loop with the replica-keyed scripted decoder on every environment with a start rule (incl. cross-size environments and OP instances with unreachable customers): forced starts are feasible and pairwise distinct when k feasible starts exist, every row's trajectory equals the solo rollout of instance r mod B with replica r div B, best-of-k returns the instance's own maximum with the actions and log-likelihood of that rollout; (c) POMO / SymNCO shared_step regrouping never mixes instances; (d) real AttentionModel multistart vs solo replication; (e) rl4co's AntSystem search (DeepACO/GFACS inference) on a seeded heuristic matrix: the best reward and trail kept per instance across iterations are the instance's own best rollout.",
+        text="(a) batchify/unbatchify/unbatchify_and_gather on tensors and nested TensorDicts with factor lists (k), (a,s), (r,a,s): row r belongs to instance r mod B, expand-then-inverse is the identity; (b) multi-start / multi-sample rollouts through the real policy loop with the replica-keyed scripted decoder on every environment with a start rule (incl. cross-size environments and OP instances with unreachable customers): forced starts are feasible and pairwise distinct when k feasible starts exist, every row's trajectory equals the solo rollout of instance r mod B with replica r div B, best-of-k returns the instance's own maximum with the actions and log-likelihood of that rollout; (c) POMO / SymNCO shared_step regrouping never mixes instances; (d) real AttentionModel multistart vs solo replication; (e) the real non-autoregressive decoder on one policy object across calls with equal row count but different (B, k): every row reads its own instance's heatmap row; (f) rl4co's AntSystem search (DeepACO/GFACS inference) on a seeded heuristic matrix: the best reward and trail kept per instance across iterations are the instance's own best rollout.",
         note="The reference loop re-derives at most 12 rows per run; FFSP trajectories are not re-derived (machine tables live on the environment).",
         tech="deterministic simulation: per-row reproducible scripted peer + solo re-derivation of replicated rollouts"),
     "C13": dict(
         cat="exploration", ref="5/C13",
-        text="Beam search through the real policy loop (scripted state-keyed scorer, tiny real AM, real non-autoregressive decoder behind a stub heatmap encoder) on fixed- and variable-length environments, widths 2..n, select_best on/off: history check over the tapped step distributions and the strategy's beam_path: kept (parent, action) pairs are the top-w of parent score + step log-prob (near-ties indeterminate), returned sequences are root-to-leaf paths with the log-probs along that path, evaluate-mode replay reproduces them, every beam is a feasible complete solution (reference violations()), beams with distinct forced starts are distinct, select_best returns the instance's maximum.",
+        text="Beam search through the real policy loop (scripted state-keyed scorer, tiny real AM, real non-autoregressive decoder behind a stub heatmap encoder) on fixed- and variable-length environments, widths 2..n, select_best on/off: history check over the tapped step distributions and the strategy's beam_path: kept (parent, action) pairs are the top-w of parent score + step log-prob (near-ties indeterminate), returned sequences are root-to-leaf paths with the log-probs along that path, evaluate-mode replay reproduces them, every beam is a feasible complete solution (reference violations()), beams with distinct forced starts are distinct, select_best returns the instance's maximum. Half of the real-network searches run with autograd off; one run in 500 is a scale fault (stacked batch with (width-1) x batch above 2**15, sampled instances re-decoded in a small batch must give the same beams).",
         note="No full independent re-execution of beam search; induction over recorded steps + path check + evaluate replay. flp/mcp/mtsp/scheduling beams excluded (no independent feasibility oracle for beams).",
         tech="deterministic simulation: recorded beam histories checked against a reference beam step + evaluate replay"),
     "C14": dict(
@@ -76,12 +76,12 @@ CHECKS = {
         tech="deterministic simulation: seeded evaluation runs with policy tap + independent objective oracle"),
     "C16": dict(
         cat="exploration", ref="5/C16",
-        text="Histories of 1-6 successive shared_step('train') calls with scheduled epoch callbacks for REINFORCE x {no, mean, exponential, rollout, warm-up mixtures, critic}, POMO, SymNCO, A2C and PPO (inner epochs, dividing and non-dividing mini-batches) outside a Trainer via shims: reported loss equals the float64 reference surrogate recomputed from the recorded rollout, baseline values follow the reference state (EMA, warm-up alpha, critic, extra), rewards/baseline values have no gradient path to the policy, shared advantages sum to zero per instance and never mix instances, and the gradient after backward equals the gradient of the reference surrogate.",
+        text="Histories of 1-6 successive shared_step('train') calls with scheduled epoch callbacks for REINFORCE x {no, mean, exponential, rollout, warm-up mixtures, critic}, POMO, SymNCO, A2C and PPO (inner epochs, dividing and non-dividing mini-batches) outside a Trainer via shims: reported loss equals the float64 reference surrogate recomputed from the recorded rollout, baseline values follow the reference state (EMA, warm-up alpha, critic, extra), rewards/baseline values have no gradient path to the policy, shared advantages sum to zero per instance and never mix instances, and the gradient after backward equals the gradient of the reference surrogate. Epoch ends may be fit boundaries: the last epoch of a fit (trainer.max_epochs = epoch + 1) followed by setup() of the next fit on the same module.",
         note="Trainer replaced by shims (log, optimizers, manual_backward, clip_gradients); tiny AM on tsp/cvrp. Gradient tolerance relative 1e-4 plus a conditioning floor when advantages cancel. SymNCO's invariance loss term is taken as reported.",
         tech="deterministic simulation: seeded training histories with trainer shims + float64 reference surrogates and autograd comparison"),
     "C17": dict(
         cat="exploration", ref="5/C17",
-        text="Operation sequences against a reference list of instance fingerprints: the three dataset classes (+ExtraKeyDataset via add_key) over fields of mixed dtype (float16/32/64, int32/64, uint8, bool) and float32/float64/int64 extra keys, eight loader modes (unshuffled, seeded/global shuffle, explicit sampler, _dataloader_single, _dataloader, dict of datasets), batch sizes dividing or not, several epochs; and real REINFORCE modules with rollout / warm-up baselines through setup, train_dataloader, on_train_epoch_end regeneration and re-wrapping: unshuffled reads reproduce order, values, dtypes, shapes and the partial batch; shuffled reads are permutations with fields kept together; the extra travelling with an instance equals the baseline policy's solo greedy reward on it.",
+        text="Operation sequences against a reference list of instance fingerprints: the three dataset classes (+ExtraKeyDataset via add_key) over fields of mixed dtype (float16/32/64, int32/64, uint8, bool) and float32/float64/int64 extra keys, eight loader modes (unshuffled, seeded/global shuffle, explicit sampler, _dataloader_single, _dataloader, dict of datasets), batch sizes dividing or not, several epochs; and real REINFORCE modules with rollout / warm-up baselines through setup, train_dataloader, on_train_epoch_end regeneration and re-wrapping: unshuffled reads reproduce order, values, dtypes, shapes and the partial batch; shuffled reads are permutations with fields kept together; the extra travelling with an instance equals the baseline policy's solo greedy reward on it (a value that differs must at least be the inference-mode value of its evaluation batch; eval()/train() flips between epochs are injected).",
         note="num_workers=0 only; training replaced by seeded parameter noise.",
         tech="deterministic simulation: seeded operation sequences against a reference fingerprint list"),
     "C18": dict(
@@ -91,13 +91,13 @@ CHECKS = {
         tech="deterministic simulation: seeded generator runs with RNG fault injection (extreme-draw buggify) + solvability episodes"),
     "C19": dict(
         cat="exploration", ref="5/C19",
-        text="Operation sequences with crash points: npz save (plain/compressed, SimFile or path) -> crash -> load; generate_dataset / generator files -> env.load_data / env.dataset(phase) -> episodes compared with the directly fed instance; FJSP/JSSP text directories under shuffled os.listdir -> file generators (also after earlier requests served by the same generator); env deepcopy/pickle at scheduled ticks mid-episode on all 21 constructive envs (masks, reward, RNG state); Trainer.fit of tiny REINFORCE models with every checkpointable baseline, and of POMO built around a policy object -> save_checkpoint -> crash -> load_from_checkpoint (path and file object, load_baseline on/off): restored policy and rollout-baseline policy give identical greedy actions and rewards, POMO also under the model's own test-phase (multi-start) decoding.",
+        text="Operation sequences with crash points: npz save (plain/compressed, SimFile or path) -> crash -> load; generate_dataset / generator files (explicit names with dots, file lists in non-alphabetical order, files already read once through the same environment, MTVRP with unscaled demands) -> env.load_data / env.dataset(phase) -> episodes compared with the directly fed instance; FJSP/JSSP text directories under shuffled os.listdir -> file generators (also after earlier requests served by the same generator); env deepcopy/pickle at scheduled ticks mid-episode on all 21 constructive envs (masks, reward, RNG state); Trainer.fit of tiny REINFORCE models with every checkpointable baseline, and of POMO built around a policy object -> save_checkpoint -> crash -> load_from_checkpoint (path and file object, load_baseline on/off): restored policy and rollout-baseline policy give identical greedy actions and rewards, POMO also under the model's own test-phase (multi-start) decoding.",
         note="Checkpoints restored in the same process (crash = drop objects + gc). Storage faults (short/torn/bit-flipped files) run in observational mode only (the property speaks of completed writes).",
         tech="deterministic simulation: seeded operation/crash sequences over in-memory and temp-dir storage with restore-equivalence oracle"),
     "C20": dict(
         cat="exploration", ref="5/C20",
-        text="Operation sequences against float64 references: RewardScaler (None/int/norm/scale) fed batches of scheduled sizes 1-64, magnitudes 1e-3..1e3, constant and offset histories, interleaved __call__/update (count exact, mean and variance vs two-pass statistics, output = stated transformation); ExponentialBaseline recurrence (also via the registry); WarmupBaseline (built directly, through the registry's 'warmup' entry around a given inner baseline, and through the default 'rollout' entry with n_epochs / exp_beta) with consecutive/repeated/restarted/skipped epoch callbacks (alpha schedule, value = alpha*inner + (1-alpha)*EMA, loss mix).",
-        note="The closed forms are pure functions of the history; the history (order and sizes of observed batches, epoch callbacks) is what the simulator schedules. float32 only.",
+        text="Operation sequences against float64 references: RewardScaler (None/int/norm/scale) fed float32 (a fifth of the runs: float64) batches of scheduled sizes 1-64, magnitudes 1e-3..1e3, constant and offset histories, interleaved __call__/update (count exact, mean and variance vs two-pass statistics, output = stated transformation); ExponentialBaseline recurrence (also via the registry); WarmupBaseline (built directly, through the registry's 'warmup' entry around a given inner baseline, and through the default 'rollout' entry with n_epochs / exp_beta) with consecutive/repeated/restarted/skipped epoch callbacks (alpha schedule, value = alpha*inner + (1-alpha)*EMA, loss mix).",
+        note="The closed forms are pure functions of the history; the history (order and sizes of observed batches, epoch callbacks) is what the simulator schedules. Statistics are held to the history's precision; the scaled output is float32-accurate by the library's design.",
         tech="deterministic simulation: seeded streaming histories against float64 reference state machines"),
     "C04": dict(
         cat="exploration", ref="5/C04",
